@@ -31,6 +31,8 @@ func C19(r *core.Report) {
 	c19FlushOrder(r)
 	readerOrderRule(r, "C19.R7", "main.(*MultiEpoch).getGsfaReadersInEpochDescendingOrderForSlotRange")
 	r.Floor("C19.R7", 1)
+	rangeSelectionInclusive(r, "C19.R8")
+	r.Floor("C19.R8", 1)
 	r.Floor("C19.R1", 6)
 	r.Floor("C19.R2", 2)
 	r.Floor("C19.R3", 6)
